@@ -116,11 +116,11 @@ package query
 //@   ensures (result1 != nil) == evalFails(scope, expr, old(evalEpoch))
 //@   ensures evalEpoch == old(evalEpoch) + 1
 //@   ensures result1 == nil ==> result0 != nil
-//@   modifies * except F:query.View. E:query.Record# E:query.Cell# E:value.Primary# E:*query.SortValue# E:query.SortValues# F:query.SortValue. E:int# F:parser. F:value. F:query.ReferenceScope. F:query.Transaction. F:option.Flags.
+//@   modifies * except F:query.View. E:query.Record# E:query.Cell# E:value.Primary# E:*query.SortValue# E:query.SortValues# F:query.SortValue. E:int# F:parser. F:value. F:query.ReferenceScope. F:query.Transaction. F:option.Flags. C: E:bool#
 //@ func EvalRowValue
 //@   trusted assumed frame of expression evaluation
 //@   ensures evalEpoch > old(evalEpoch)
-//@   modifies * except F:query.View. E:query.Record# E:query.Cell# E:*query.SortValue# E:query.SortValues# F:query.SortValue. E:int# F:parser. F:value. F:query.ReferenceScope. F:query.Transaction. F:option.Flags.
+//@   modifies * except F:query.View. E:query.Record# E:query.Cell# E:*query.SortValue# E:query.SortValues# F:query.SortValue. E:int# F:parser. F:value. F:query.ReferenceScope. F:query.Transaction. F:option.Flags. C: E:bool#
 
 // ---------------------------------------------------------------------------------------------
 // C07: OFFSET / LIMIT / sort keys
@@ -434,3 +434,184 @@ package query
 //@   ensures [is-null] p2 == value.null ==> result == value.tbool(p1 == value.null)
 //@   ensures [is-truth-value] p2 != value.null ==> result == value.tbool(value.ternOf(p1) == value.ternOf(p2))
 //@   modifies nothing
+
+// ---------------------------------------------------------------------------------------------
+// C03: WHERE / HAVING keep exactly the rows whose condition is TRUE, in order
+// The per-row evaluation runs on worker goroutines (outside the verified subset). It is summarised by the
+// assumed contract of EvaluateSequentially (it leaves the storage of every View alone; what it writes through the
+// closure - the result slots - is arbitrary) and by the closure's own contract, verified below: slot rIdx is set
+// iff the condition evaluated to TRUE, and no other slot is touched.
+//@ func EvaluateSequentially
+//@   trusted assumed: runs fn(scope', i) once for each row index i of view (on worker goroutines); returns the first error
+//@   modifies * except F:query.View. E:query.Record# E:query.Cell# E:value.Primary# E:*query.SortValue# E:query.SortValues# F:query.SortValue. E:int# F:parser. F:value. F:query.ReferenceScope. F:query.Transaction. F:option.Flags. C: E:bool#
+
+// number of kept rows among the first k (counting function; its unfolding and monotonicity are stated as axioms)
+//@ spec func rankOf(s []bool, k int) int reads elems(bool)
+//@ axiom rank_zero: forallv(s, []bool, rankOf(s, 0) == 0)
+//@ axiom rank_step: forallv(s, []bool, forall(k, 0, MaxInt64, rankOf(s, k + 1) == rankOf(s, k) + ite(s[k], 1, 0)))
+//@ axiom rank_bounds: forallv(s, []bool, forall(k, 0, MaxInt64, 0 <= rankOf(s, k) && rankOf(s, k) <= k))
+//@ axiom rank_monotone: forallv(s, []bool, forall(j, 0, MaxInt64, forall(k, 0, MaxInt64, j <= k ==> rankOf(s, j) <= rankOf(s, k))))
+
+//@ func (*View).filter$1
+//@   property C03
+//@   requires 0 <= rIdx && rIdx < len(results)
+//@   ensures [slot-set-iff-true] result == nil ==> results[rIdx] == (old(results[rIdx]) || value.ternOf(lastEval) == ternary.TRUE)
+//@   ensures [other-slots-untouched] forall(k, 0, len(results), k != rIdx ==> results[k] == old(results[k]))
+//@   ensures [error-writes-nothing] result != nil ==> results[rIdx] == old(results[rIdx])
+//@   modifies *
+
+//@ func (*View).filter
+//@   property C03
+//@   safety
+//@   requires view != nil
+//@   ensures [error-leaves-rows] result != nil ==> view.RecordSet == old(view.RecordSet)
+//@   ensures [count] result == nil ==> len(view.RecordSet) == rankOf(results, old(len(view.RecordSet))) && len(results) == old(len(view.RecordSet))
+//@   ensures [kept-rows-in-order] result == nil ==> forall(k, 0, old(len(view.RecordSet)), results[k] ==> view.RecordSet[rankOf(results, k)] == old(view.RecordSet[k]))
+//@   ensures [same-backing-array] result == nil ==> view.RecordSet == old(view.RecordSet)[:len(view.RecordSet)]
+//@   loop 1 invariant 0 <= $i && $i <= len(results) && len(results) == len(view.RecordSet) && view.RecordSet == old(view.RecordSet)
+//@   loop 1 invariant newIdx == rankOf(results, $i)
+//@   loop 1 invariant forall(k, 0, $i, results[k] ==> view.RecordSet[rankOf(results, k)] == old(view.RecordSet[k]))
+//@   loop 1 invariant forall(k, $i, len(results), view.RecordSet[k] == old(view.RecordSet[k]))
+//@   loop 1 modifies view.RecordSet[*]
+//@   modifies * except F:query.View. E:query.Record# E:query.Cell# E:value.Primary# E:*query.SortValue# E:query.SortValues# F:query.SortValue.
+//@   modifies view.RecordSet, view.RecordSet[*]
+
+// ---------------------------------------------------------------------------------------------
+// B3: concatenation and copy helpers (C03, C05, C08)
+
+//@ func (RecordSet).Merge
+//@   property C03 C05
+//@   safety
+//@   requires len(r) + len(r2) <= MaxInt64
+//@   ensures [length] len(result) == len(r) + len(r2) && fresh(result)
+//@   ensures [left-then-right] forall(k, 0, len(r), result[k] == r[k]) && forall(k, 0, len(r2), result[len(r) + k] == r2[k])
+//@   loop 1 invariant 0 <= $i && $i <= len(r) && len(recordSet) == len(r) + len(r2) && fresh(recordSet) && leftLen == len(r)
+//@   loop 1 invariant forall(k, 0, $i, recordSet[k] == r[k])
+//@   loop 1 modifies recordSet[*]
+//@   loop 2 invariant 0 <= $i && $i <= len(r2) && len(recordSet) == len(r) + len(r2) && fresh(recordSet) && leftLen == len(r)
+//@   loop 2 invariant forall(k, 0, len(r), recordSet[k] == r[k]) && forall(k, 0, $i, recordSet[len(r) + k] == r2[k])
+//@   loop 2 modifies recordSet[*]
+//@   modifies nothing
+
+//@ func (Record).Copy
+//@   property C08 C05
+//@   safety
+//@   ensures [same-cells-fresh-spine] len(result) == len(r) && fresh(result) && forall(k, 0, len(r), result[k] == r[k])
+//@   loop 1 invariant 0 <= $i && $i <= len(r) && len(record) == len(r) && fresh(record) && forall(k, 0, $i, record[k] == r[k])
+//@   loop 1 modifies record[*]
+//@   modifies nothing
+
+//@ func (RecordSet).Copy
+//@   property C08 C05
+//@   safety
+//@   ensures [fresh-spine] len(result) == len(r) && fresh(result)
+//@   ensures [fresh-records-same-cells] forall(k, 0, len(r), fresh(result[k]) && len(result[k]) == len(r[k]) && forall(q, 0, len(r[k]), result[k][q] == r[k][q]))
+//@   loop 1 invariant 0 <= $i && $i <= len(r) && len(records) == len(r) && fresh(records)
+//@   loop 1 invariant forall(k, 0, $i, fresh(records[k]) && len(records[k]) == len(r[k]) && forall(q, 0, len(r[k]), records[k][q] == r[k][q]))
+//@   loop 1 modifies records[*]
+//@   modifies nothing
+
+// total length of the first k lists (prefix sum; unfolding and monotonicity stated as axioms)
+//@ spec func psum(list []RecordSet, k int) int reads elems(RecordSet)
+//@ axiom psum_zero: forallv(l, []RecordSet, psum(l, 0) == 0)
+//@ axiom psum_step: forallv(l, []RecordSet, forall(k, 0, MaxInt64, psum(l, k + 1) == psum(l, k) + len(l[k])))
+//@ axiom psum_monotone: forallv(l, []RecordSet, forall(j, 0, MaxInt64, forall(k, 0, MaxInt64, j <= k ==> psum(l, j) <= psum(l, k))))
+
+//@ func MergeRecordSetList
+//@   property C03 C12
+//@   safety
+//@   requires psum(list, len(list)) <= 1152921504606846975
+//@   ensures [length] len(result) == psum(list, len(list))
+//@   ensures [concatenation-in-list-order] forall(k, 0, len(list), forall(j, 0, len(list[k]), result[psum(list, k) + j] == list[k][j]))
+//@   loop 1 invariant 0 <= $i && $i <= len(list) && recordLen == psum(list, $i)
+//@   loop 1 modifies nothing
+//@   loop 2 invariant 0 <= $i && $i <= len(list) && idx == psum(list, $i) && len(records) == psum(list, len(list)) && fresh(records)
+//@   loop 2 invariant forall(k, 0, $i, forall(j, 0, len(list[k]), records[psum(list, k) + j] == list[k][j]))
+//@   loop 2 modifies records[*]
+//@   loop 3 invariant 0 <= rangeindex@2 && rangeindex@2 < len(list) && rset == list[rangeindex@2] && 0 <= $i && $i <= len(rset)
+//@   loop 3 invariant idx == psum(list, rangeindex@2) + $i && len(records) == psum(list, len(list)) && fresh(records)
+//@   loop 3 invariant forall(k, 0, rangeindex@2, forall(j, 0, len(list[k]), records[psum(list, k) + j] == list[k][j]))
+//@   loop 3 invariant forall(j, 0, $i, records[psum(list, rangeindex@2) + j] == rset[j])
+//@   loop 3 modifies records[*]
+//@   modifies nothing
+
+// ---------------------------------------------------------------------------------------------
+// C03 / C05: projection of the select list (View.Fix). The per-row projection runs under GoroutineTaskManager.Run
+// (goroutines: outside the subset; assumed to call the closure once for every row index). Proved here: the decision
+// whether rows need re-projecting, the projection of one row (the closure), and the header construction.
+//@ func (*GoroutineTaskManager).Run
+//@   trusted assumed: calls fn(i) exactly once for every i in [0, recordLen) (RecordRange, proved, partitions that range); returns the first error; writes only its own bookkeeping and what fn writes
+//@   calls fn
+//@   modifies m, key:F:query.GoroutineManager.Count#0
+
+//@ func NewGoroutineTaskManager
+//@   trusted assumed: allocates a manager for recordLen rows with at least one worker; touches only the global worker counter
+//@   ensures result != nil && fresh(result) && result.Number >= 1 && result.recordLen == recordLen
+//@   modifies key:F:query.GoroutineManager.Count#0, key:G:query.gm#0
+
+//@ spec def identitySelection(view *View) bool = len(view.selectFields) == len(view.Header) && forall(q, 0, len(view.Header), view.selectFields[q] == q)
+
+//@ func (*View).Fix
+//@   property C03 C05
+//@   requires view != nil && flags != nil
+//@   requires forall(q, 0, len(view.selectFields), 0 <= view.selectFields[q] && view.selectFields[q] < len(view.Header))
+//@   requires len(view.selectLabels) == 0 || len(view.selectLabels) >= len(view.selectFields)
+//@   assert after call NewEmptyHeader#1: [rows-kept-only-for-identity-selection] !resize ==> len(old(view.selectFields)) == len(old(view.Header)) && forall(q, 0, len(old(view.Header)), old(view.selectFields[q]) == q)
+//@   ensures [header-follows-selection] result == nil ==> len(view.Header) == old(len(view.selectFields)) &&
+//@       forall(q, 0, len(view.Header), view.Header[q].Column == ite(old(len(view.selectLabels)) > 0, old(view.selectLabels[q]), old(view.Header[view.selectFields[q]].Column)) &&
+//@           view.Header[q].View == old(view.Header[view.selectFields[q]].View) && view.Header[q].Number == q + 1)
+//@   loop 1 invariant 0 <= i && i <= len(view.Header) && !resize && fieldLen == len(view.Header) && view.selectFields == old(view.selectFields) && view.Header == old(view.Header) && forall(q, 0, i, view.selectFields[q] == q)
+//@   loop 1 modifies nothing
+//@   loop 2 invariant 0 <= $i && $i <= len(hfields) && len(hfields) == old(len(view.selectFields)) && fresh(hfields) && colNumber == $i
+//@   loop 2 invariant forall(q, 0, $i, hfields[q].Column == ite(old(len(view.selectLabels)) > 0, old(view.selectLabels[q]), old(view.Header[view.selectFields[q]].Column)) &&
+//@           hfields[q].View == old(view.Header[view.selectFields[q]].View) && hfields[q].Number == q + 1)
+//@   loop 2 modifies hfields[*]
+//@   modifies *
+
+//@ func (*View).Fix$1
+//@   property C03 C05
+//@   safety
+//@   requires view != nil && 0 <= index && index < len(view.RecordSet) && fieldLen == len(view.selectFields)
+//@   requires forall(q, 0, len(view.selectFields), 0 <= view.selectFields[q] && view.selectFields[q] < len(view.RecordSet[index]) && len(view.RecordSet[index][view.selectFields[q]]) >= 1)
+//@   ensures [row-projected] result == nil && len(view.RecordSet[index]) == fieldLen &&
+//@       forall(q, 0, fieldLen, view.RecordSet[index][q] == old(view.RecordSet[index][view.selectFields[q]])[:1])
+//@   ensures [other-rows-untouched] forall(k, 0, len(view.RecordSet), k != index ==> view.RecordSet[k] == old(view.RecordSet[k]))
+//@   loop 1 invariant 0 <= $i && $i <= len(view.selectFields) && len(record) == fieldLen && fresh(record) && forall(q, 0, $i, record[q] == view.RecordSet[index][view.selectFields[q]][:1])
+//@   loop 1 modifies record[*]
+//@   loop 2 invariant 0 <= $i && $i <= len(record) && len(record) == fieldLen && len(view.RecordSet[index]) == fieldLen && view.RecordSet == old(view.RecordSet)
+//@   loop 2 invariant forall(q, 0, fieldLen, record[q] == old(view.RecordSet[index][view.selectFields[q]])[:1]) && forall(q, 0, $i, view.RecordSet[index][q] == record[q])
+//@   loop 2 invariant forall(k, 0, len(view.RecordSet), k != index ==> view.RecordSet[k] == old(view.RecordSet[k]))
+//@   loop 2 modifies view.RecordSet[index][*]
+
+// ---------------------------------------------------------------------------------------------
+// C03: USING / NATURAL join columns are merged once (joinViews), small index sets (UintPool)
+//@ spec opaque poolHas(c *UintPool, v uint) bool = exists(q, 0, len(c.values), c.values[q] == v)
+//@ spec def poolWf(c *UintPool) bool = c != nil && c.m != nil && forallv(v, uint, has(c.m, v) <==> exists(q, 0, len(c.values), c.values[q] == v))
+
+//@ func (*UintPool).Exists
+//@   property C03
+//@   safety
+//@   reveal poolHas
+//@   requires poolWf(c)
+//@   ensures [membership] result == poolHas(c, val)
+//@   loop 1 invariant 0 <= $i && $i <= len(c.values) && forall(q, 0, $i, c.values[q] != val)
+//@   loop 1 modifies nothing
+//@   modifies nothing
+
+// one row of the merged join result: column i of the output is input column fieldIndices[i], except that a NULL
+// join column takes the value of its counterpart from the other table (alternatives maps column index to column index)
+//@ func joinViews$2
+//@   property C03
+//@   safety
+//@   requires view != nil && 0 <= index && index < len(view.RecordSet) && fieldLen == len(fieldIndices) && poolWf(includeIndices) && alternatives != nil
+//@   requires forall(q, 0, len(fieldIndices), 0 <= fieldIndices[q] && fieldIndices[q] < len(view.RecordSet[index]) && len(view.RecordSet[index][fieldIndices[q]]) >= 1)
+//@   requires forall(q, 0, len(fieldIndices), 0 <= alternatives[fieldIndices[q]] && alternatives[fieldIndices[q]] < len(view.RecordSet[index]))
+//@   ensures [merged-row] result == nil && len(view.RecordSet[index]) == fieldLen && forall(q, 0, fieldLen,
+//@       view.RecordSet[index][q] == ite(poolHas(includeIndices, fieldIndices[q]) && old(view.RecordSet[index][fieldIndices[q]][0]) == value.null,
+//@            old(view.RecordSet[index][alternatives[fieldIndices[q]]]), old(view.RecordSet[index][fieldIndices[q]])))
+//@   ensures [other-rows-untouched] forall(k, 0, len(view.RecordSet), k != index ==> view.RecordSet[k] == old(view.RecordSet[k]))
+//@   loop 1 invariant 0 <= $i && $i <= len(fieldIndices) && len(record) == fieldLen && fresh(record) && view.RecordSet == old(view.RecordSet)
+//@   loop 1 invariant forall(q, 0, $i, record[q] == ite(poolHas(includeIndices, fieldIndices[q]) && view.RecordSet[index][fieldIndices[q]][0] == value.null,
+//@            view.RecordSet[index][alternatives[fieldIndices[q]]], view.RecordSet[index][fieldIndices[q]]))
+//@   loop 1 modifies record[*]
+//@   modifies view.RecordSet[*]
